@@ -592,7 +592,11 @@ func GetFingerprint(q string) string {
 				s = opOrNumber
 			}
 		case r == '.':
-			if s == inNumber || s == inOp {
+			// .5 begins a number where 5 would: after an operator, after white
+			// space or a value, and after ( or , in a word.
+			numberNext := qi+1 < len(q) && q[qi+1] >= '0' && q[qi+1] <= '9'
+			if s == inNumber || s == inOp ||
+				(numberNext && (s == inSpace || s == unknown || (s == inWord && (pr == '(' || pr == ',')))) {
 				if Debug {
 					fmt.Println("Floating point number")
 				}
